@@ -7,7 +7,7 @@ package ref
 
 import (
 	"crypto/hmac"
-	"crypto/md5" //nolint:gosec
+	"crypto/md5"  //nolint:gosec
 	"crypto/sha1" //nolint:gosec
 	"crypto/sha256"
 	"hash"
